@@ -90,6 +90,16 @@ func c20CheckType(c c20Type) engine.Result {
 				continue
 			}
 			c20CheckPredicates(&res, "NewPMT", code, ess[pos])
+			if pos6 == 0 {
+				// the stream's bit rate follows its maximum_bitrate descriptor whatever the stream_type is
+				for _, rate := range []uint32{0, 1, 4660, 0x1FFFFF} {
+					body := []byte{0xC0 | byte(rate>>16), byte(rate >> 8), byte(rate)}
+					es := psi.NewPmtElementaryStream(code, 0x101, []psi.PmtDescriptor{psi.NewPmtDescriptor(0x52, []byte{1}), psi.NewPmtDescriptor(0x0E, body)})
+					if got := es.MaxBitRate(); got != uint64(rate)*400 {
+						res.Failf("stream|MaxBitRate-by-stream-type", "stream_type %#x with maximum_bitrate %d: MaxBitRate()=%d want %d", code, rate, got, uint64(rate)*400)
+					}
+				}
+			}
 			if pos6 < 3 {
 				// the same stream carrying a registration descriptor with each of the format identifiers in common use
 				// (and a language descriptor): classification and the lag query follow the stream_type alone
